@@ -12,14 +12,24 @@
      keyed_parts / keyed_*       the same for sample_values_reservoir(_vec);
      built k seed a m            accumulator a is reachable from create by ANY sequence of
                                  add_input and merge steps (any merge tree), having consumed m;
+     topk_spec k seed parts      the CLOSED FORM of the sample (Combiners/ReservoirTopK.v): the j-th
+                                 element of a partition gets the j-th priority of the seed's
+                                 stream, an item is (priority, seq = j, gpos = position in the
+                                 whole input, value); keep the k greatest items for the
+                                 lexicographic order on (priority, seq, gpos), return them sorted by
+                                 (priority desc, seq asc, gpos asc); msort = its merge sort;
+     keyed_unfused_parts         the per-key sample when it feeds a join (GroupByKey node + the
+                                 group-wise local step of combine_values_lifted);
      InvK k a                    the accumulator invariant: heap entries = live slots of the
                                  store (as multisets), alive = number of live slots, alive <= k.
    "Sub-multiset" is stated by occurrence counts: nothing invented, nothing returned more often
    than it occurs.  All theorems hold for every element type, every k (0 and k >= n included),
    every seed and every partitioning. *)
-From Coq Require Import List ZArith NArith Bool Permutation.
-From IB Require Import Combiners.Reservoir Proofs.Reservoir Proofs.ReservoirKeyed
-  Proofs.ReservoirNatural Proofs.ReservoirBigK Proofs.ReservoirProps.
+From Coq Require Import List ZArith NArith Bool Permutation Sorting.Sorted.
+From IB Require Import Combiners.Reservoir Combiners.ReservoirTopK Proofs.Reservoir Proofs.ReservoirKeyed
+  Proofs.ReservoirNatural Proofs.ReservoirBigK Proofs.ReservoirProps
+  Proofs.ReservoirTopK Proofs.ReservoirTopKKeyed.
+From IB Require Proofs.ReservoirFast.
 Import ListNotations.
 
 (* ---------- the accumulator invariant is established by create, kept by add_input and merge ---------- *)
@@ -271,3 +281,167 @@ Proof.
   split; [vm_compute; reflexivity|]. split; [vm_compute; reflexivity|].
   apply c14_mode_stable_outside_class; [reflexivity|]. right. left. cbn. auto.
 Qed.
+
+(* ====================================================================================
+   The closed form: WHAT the reservoir computes (functional correctness of the sampler).
+   ==================================================================================== *)
+
+(* ---------- the store / heap / trim-loop / index-remapping machine computes exactly "the k items of
+   greatest (priority, seq, position), ordered by (priority desc, seq asc, position asc)", for
+   every element type, k, seed and partitioning (this is also what lets the correspondence check
+   evaluate inputs of 100 000 elements) ---------- *)
+Theorem c14_topk_closed_form :
+  forall (T : Type) (k : nat) (seed : N) (parts : list (list T)),
+    sample_parts k seed parts = topk_spec k seed parts.
+Proof. exact @sample_parts_topk. Qed.
+
+Example c14_topk_closed_form_ex :
+  topk_spec 2 42%N [[1; 2; 3]; [4; 5]]%Z = [1; 4]%Z /\
+  sample_parts 2 42%N [[1; 2; 3]; [4; 5]]%Z = [1; 4]%Z /\
+  (* the two survivors tie on (priority, seq): first elements of their partitions *)
+  map (fun x => (it_seq x, it_gpos x))
+      (firstn 2 (msort (keep_leb N.ltb)
+                       (items_parts (prio_stream 3 (stream_state0 42%N)) 0 [[1; 2; 3]; [4; 5]]%Z)))
+  = [(0, 3); (0, 0)]%N.
+Proof.
+  split; [vm_compute; reflexivity|]. split; [|vm_compute; reflexivity].
+  rewrite c14_topk_closed_form. vm_compute. reflexivity.
+Qed.
+
+(* ---------- nothing that was left out beats anything that was selected ---------- *)
+Theorem c14_selected_dominate :
+  forall (T : Type) (k : nat) (seed : N) (parts : list (list T)),
+    let items := items_parts (prio_stream (max_len parts) (stream_state0 seed)) 0 parts in
+    let ranked := msort (keep_leb N.ltb) items in
+    sample_parts k seed parts = map it_val (msort (out_leb N.ltb) (firstn k ranked)) /\
+    Permutation (firstn k ranked ++ skipn k ranked) items /\
+    forall x y, In x (firstn k ranked) -> In y (skipn k ranked) -> keep_ge x y.
+Proof. exact topk_selected_dominate. Qed.
+
+Example c14_selected_dominate_ex :
+  let items := items_parts (prio_stream 4 (stream_state0 7%N)) 0 [[10; 20; 30; 40]; [50; 60]]%Z in
+  let ranked := msort (keep_leb N.ltb) items in
+  map it_val (firstn 3 ranked) = [30; 50; 10]%Z /\ map it_val (skipn 3 ranked) = [40; 60; 20]%Z /\
+  sample_parts 3 7%N [[10; 20; 30; 40]; [50; 60]]%Z = [30; 10; 50]%Z.
+Proof. vm_compute. repeat split; reflexivity. Qed.
+
+(* ---------- the two global entry points in closed form ---------- *)
+Theorem c14_topk_entry_points :
+  forall (T : Type) (k : nat) (seed : N) (p : nat) (data : list T),
+    global_seq k seed data = topk_spec k seed [data] /\
+    global_par k seed p data = topk_spec k seed (runner_split p data).
+Proof. exact topk_entry_points. Qed.
+
+Example c14_topk_entry_points_ex :
+  topk_spec 3 9%N (runner_split 3 [5; 5; 6; 7; 8; 5; 9]%Z) = [5; 8; 5]%Z /\
+  topk_spec 3 9%N [[5; 5; 6; 7; 8; 5; 9]]%Z = [5; 8; 5]%Z.
+Proof. vm_compute. split; reflexivity. Qed.
+
+(* ---------- the merge sort of the closed form is a sorting function ---------- *)
+Theorem c14_msort_is_sort :
+  forall (A : Type) (leb : A -> A -> bool),
+    (forall a b, leb a b = true \/ leb b a = true) ->
+    (forall a b c, leb a b = true -> leb b c = true -> leb a c = true) ->
+    forall l, Permutation (msort leb l) l /\
+              StronglySorted (fun a b => leb a b = true) (msort leb l).
+Proof. exact msort_is_sort. Qed.
+
+Example c14_msort_is_sort_ex :
+  msort Nat.leb [3; 1; 2; 3; 0]%nat = [0; 1; 2; 3; 3]%nat /\
+  (forall a b, Nat.leb a b = true \/ Nat.leb b a = true) /\
+  (forall a b c, Nat.leb a b = true -> Nat.leb b c = true -> Nat.leb a c = true).
+Proof.
+  split; [vm_compute; reflexivity|]. split.
+  - intros a b. destruct (PeanoNat.Nat.le_ge_cases a b) as [H|H];
+      [left|right]; apply PeanoNat.Nat.leb_le; exact H.
+  - intros a b c H1 H2. apply PeanoNat.Nat.leb_le. apply PeanoNat.Nat.leb_le in H1, H2.
+    exact (PeanoNat.Nat.le_trans _ _ _ H1 H2).
+Qed.
+
+(* ---------- per key, collected directly: the closed form of the key's values as cut by the
+   partitioning (partitions without the key are invisible) ---------- *)
+Theorem c14_keyed_topk :
+  forall (K T : Type) (keqb : K -> K -> bool),
+    (forall x y, reflect (x = y) (keqb x y)) ->
+    forall (k : nat) (seed : N) (parts : list (list (K * T))) (key : K),
+      (In key (map fst (concat parts)) ->
+       lookup keqb key (keyed_parts keqb k seed parts)
+       = Some (topk_spec k seed (map (key_vals keqb key) parts))) /\
+      (~ In key (map fst (concat parts)) ->
+       lookup keqb key (keyed_parts keqb k seed parts) = None).
+Proof. exact @keyed_parts_topk. Qed.
+
+Example c14_keyed_topk_ex :
+  let parts := [[(1, 10); (2, 20); (1, 11)]; [(2, 21)]; [(1, 12); (2, 22)]]%Z in
+  In 1%Z (map fst (concat parts)) /\
+  map (key_vals Z.eqb 1%Z) parts = [[10; 11]; []; [12]]%Z /\
+  lookup Z.eqb 1%Z (keyed_parts Z.eqb 2 3%N parts) = Some [11; 12]%Z.
+Proof. vm_compute. split; [left; reflexivity|split; reflexivity]. Qed.
+
+(* ---------- per key, feeding a join (the un-lifted route): the closed form of ALL the key's values
+   as ONE partition - independent of the partitioning, and equal to what the sequential direct
+   collection returns ---------- *)
+Theorem c14_unfused_route_topk :
+  forall (K T : Type) (keqb : K -> K -> bool),
+    (forall x y, reflect (x = y) (keqb x y)) ->
+    forall (k : nat) (seed : N) (parts : list (list (K * T))) (key : K),
+      (In key (map fst (concat parts)) ->
+       lookup keqb key (keyed_unfused_parts keqb k seed parts)
+       = Some (topk_spec k seed [key_vals keqb key (concat parts)])) /\
+      (~ In key (map fst (concat parts)) ->
+       lookup keqb key (keyed_unfused_parts keqb k seed parts) = None).
+Proof. exact @keyed_unfused_topk. Qed.
+
+Example c14_unfused_route_topk_ex :
+  let parts := [[(1, 10); (2, 20); (1, 11)]; [(2, 21)]; [(1, 12); (2, 22)]]%Z in
+  lookup Z.eqb 1%Z (keyed_unfused_parts Z.eqb 1 3%N parts) = Some [12]%Z /\
+  lookup Z.eqb 1%Z (keyed_parts Z.eqb 1 3%N [concat parts]) = Some [12]%Z /\
+  (* ... whereas the direct collection with these three partitions gives another sample *)
+  lookup Z.eqb 1%Z (keyed_parts Z.eqb 1 3%N parts) = Some [11]%Z.
+Proof. vm_compute. repeat split; reflexivity. Qed.
+
+(* ---------- the per-key evaluators the correspondence check runs agree, at every key, with the
+   operational model ---------- *)
+Theorem c14_keyed_evaluators_agree :
+  forall (K T : Type) (keqb : K -> K -> bool),
+    (forall x y, reflect (x = y) (keqb x y)) ->
+    forall (k : nat) (seed : N) (parts : list (list (K * T))) (key : K),
+      lookup keqb key (keyed_parts keqb k seed parts)
+      = lookup keqb key (keyed_topk keqb (@topk_spec T) k seed parts) /\
+      lookup keqb key (keyed_unfused_parts keqb k seed parts)
+      = lookup keqb key (keyed_topk_unfused keqb (@topk_spec T) k seed parts).
+Proof. exact @keyed_evaluators_agree. Qed.
+
+Example c14_keyed_evaluators_agree_ex :
+  let parts := [[(1, 10); (2, 20); (1, 11)]; [(2, 21)]; [(1, 12); (2, 22)]]%Z in
+  keyed_topk Z.eqb (@topk_spec Z) 2 3%N parts = [(1, [11; 12]); (2, [21; 22])]%Z /\
+  keyed_topk_unfused Z.eqb (@topk_spec Z) 2 3%N parts = [(1, [12; 11]); (2, [22; 21])]%Z.
+Proof. vm_compute. split; reflexivity. Qed.
+
+(* ---------- the priority stream can be entered at any position: the j-th priority of a stream is a
+   closed expression of (state, j) (SplitMix64's state after j draws is st + j * GOLDEN).  The
+   correspondence check uses it to compare the primitive-integer stream of its fast evaluator with
+   the model's stream at positions spread over inputs of 100 000 elements. ---------- *)
+Theorem c14_stream_jump_ahead :
+  forall (n : nat) (st : N) (j : nat),
+    (j < n)%nat -> nth_error (prio_stream n st) j = Some (prio_at st (N.of_nat j)).
+Proof. exact prio_stream_nth. Qed.
+
+Example c14_stream_jump_ahead_ex :
+  nth_error (prio_stream 6 (stream_state0 42%N)) 4 = Some (prio_at (stream_state0 42%N) 4) /\
+  prio_at (stream_state0 42%N) 4 = 14804543244209016%N /\
+  prio_at (stream_state0 42%N) 99999 = 14760793700513408%N.
+Proof.
+  split; [apply (c14_stream_jump_ahead 6 _ 4); repeat constructor|].
+  vm_compute. split; reflexivity.
+Qed.
+
+(* ---------- the evaluator used by the correspondence check for inputs of up to 100 000 elements
+   (the same closed form, its priority stream computed on primitive 63-bit integers) is the closed
+   form.  A LEMMA, not part of the axiom-free theorem list: its proof (Proofs/ReservoirFast.v) uses
+   the standard library's axiomatic specification of primitive integers (Uint63.add_spec, mul_spec,
+   lsl_spec, lsr_spec, land_spec, lor_spec, lxor_spec, ltb_spec, eqb_correct, of_to_Z, ...). ---------- *)
+Lemma c14_fast_evaluator_is_closed_form :
+  forall (T : Type) (k : nat) (seed : N) (parts : list (list T)),
+    topk_fast k seed parts = topk_spec k seed parts.
+Proof. exact ReservoirFast.topk_fast_spec. Qed.
